@@ -14,7 +14,7 @@ CONSTANTS
   MaxAnswers = 2
   MaxCalls = 1
   MaxMult = 8
-  RootAnswers = {"setA", "setB", "dupWithin", "sameSubject", "s500", "notJSON", "hang"}
+  RootAnswers = {"setA", "setB", "sameSubject", "s500", "notJSON", "hang"}
   CtxMayEnd = TRUE
 INIT Init
 NEXT Next
